@@ -178,6 +178,11 @@ TWINS += [
                 "def _line_comment(lexer, match):\n    text = match.group(0)\n    yield match.start(), Comment.Single, text[:-1]\n"
                 "    yield match.end() - 1, Text, text[-1:]\n\n\nKEYWORDS = (\n"),
                ("explorerscript/pygments/expslexer.py", "            (r\"//.*?\\n\", Comment.Single),\n", "            (r\"//.*?\\n\", _line_comment),\n")]},
+    {"id": "twin-macro-op-count-in-init", "what": "ExplorerScriptMacro counts its non-label blueprints once in __init__ instead of on every build()",
+     "edits": [("explorerscript/macro.py", "        self.blueprints = blueprints\n",
+                "        self.blueprints = blueprints\n        self.real_op_count = len([o for o in blueprints if not isinstance(o, SsbLabel)])\n"),
+               ("explorerscript/macro.py", "        len_real_ops_in_blueprints = len([o for o in self.blueprints if not isinstance(o, SsbLabel)]) + 1\n",
+                "        len_real_ops_in_blueprints = self.real_op_count + 1\n")]},
     {"id": "twin-call-exit-selection", "what": "CallWriteHandler selects the edge after the call with a loop instead of a comprehension",
      "edits": [("explorerscript/ssb_converting/decompiler/write_handlers/label_jumps/call.py",
                 "        if len(exits_after_call) > 0:\n            return exits_after_call[0].target_vertex\n",
